@@ -3,7 +3,7 @@
 mkdir -p /verif/.scratch/${ROUND:-seed4}
 for d in ${WT:-/tmp/wt4}/C*.out/a ${WT:-/tmp/wt4}/C*.out/b; do
   [ -f $d/patch.diff ] && [ -f $d/demo_cmd.txt ] && [ -f $d/demo_path.txt ] && [ -f $d/seed_demo_test.go.txt ] || continue
-  grep -q "CONFIRMED $d\$" /verif/.scratch/${ROUND:-seed4}/confirm.log 2>/dev/null && continue
+  grep -q "^CONFIRMED $d\$" /verif/.scratch/${ROUND:-seed4}/confirm.log 2>/dev/null && continue
   /verif/tools/confirm_seed3.sh $d >> /verif/.scratch/${ROUND:-seed4}/confirm.log 2>&1
 done
 grep -c "^CONFIRMED" /verif/.scratch/${ROUND:-seed4}/confirm.log; grep "^NOT-CONFIRMED" /verif/.scratch/${ROUND:-seed4}/confirm.log
